@@ -2,6 +2,7 @@ import VelaVerif.Lemmas.NpuOpBuild
 import VelaVerif.Lemmas.NpuOpBuildLegal
 import VelaVerif.Lemmas.NpuOpBuildExample
 import VelaVerif.Handlers.NpuOpBuild
+import VelaVerif.Props.C06
 /-!
 # C06, the link in front of the register generator: scheduled operation → `NpuOperation`
 
@@ -248,7 +249,12 @@ real operation by the Spec checker). -/
     with the quantisation the operation programs for its OFM, whose zero point may be forced to 0 — are the bounds of the
     tensor's own quantisation, `q.zeroPoint + round(v / q.scale)`; in particular the zero point is neither lost when the
     register is forced to 0 nor added twice when it is not (the two defects repaired in a125c1d). -/
-theorem activation_clamp_spec (fo : FloatOps) (c : StripeD) (arch : ArchD) (kind : Kind) (b : BlockB) (o : Oracle) (r : Built)
+/- Full statement (not proved): the same with `fo := Handlers.NpuOpBuild.floatOps` (exact IEEE arithmetic) and, instead of
+   `hrt`, the hypotheses "`q.scale` is a normal positive float, every bound quantises to an integer of magnitude ≤ 2^20".  Missing:
+   `RoundTrip floatOps s k n` for normal `s`, `|n| ≤ 2^20` — an error analysis of `Requant.roundTo` (two roundings to 24 bits
+   stay within 1/4 of `n`, the float32 addition of 1/2 is then exact).  The Spec checker evaluates the very equality on every
+   real operation (`clamp`), and the example below evaluates `RoundTrip` on a real instance. -/
+theorem activation_clamp_spec_partial (fo : FloatOps) (c : StripeD) (arch : ArchD) (kind : Kind) (b : BlockB) (o : Oracle) (r : Built)
     (hb : setCommon fo c arch kind = .ok b) (hr : toRecord fo b o = .ok r)
     (a : ActD) (ha : c.op.activation = some a) (hrelu : a.faf.isRelu = true)
     (q : Quant) (hq : c.ofm.quant = some q) (hoq : c.op.ofmQuant = some q) (hforced : c.op.forcedOutputQuant = none)
@@ -318,7 +324,7 @@ theorem activation_clamp_spec (fo : FloatOps) (c : StripeD) (arch : ArchD) (kind
     case): `create_npu_elementwise_op` replaces the scale of the OFM quantisation only to program `OFM_SCALE`; the clamp
     bounds are re-expressed in the overriding scale so that they quantise to the very same integers as before
     (the defect repaired in d77406b quantised them with `alpha`). -/
-theorem activation_clamp_override_preserved (fo : FloatOps) (op : OpD) (b : BlockB) (u : EwUpd)
+theorem activation_clamp_override_preserved_partial (fo : FloatOps) (op : OpD) (b : BlockB) (u : EwUpd)
     (h : ewFinish fo op b = .ok u) (hrelu : b.act.opType = 0) (hq : b.ofm.fm.hasQuant = true)
     (hsc : b.ofm.scale.isSome = true) (hcongr : ∀ a b x, fo.eq a b = true → fo.qdiv x a = fo.qdiv x b)
     (qmin qmax : Option Int)
@@ -581,6 +587,41 @@ theorem build_legal_dma (fo : FloatOps) (d : DmaD) (arch : ArchD) (o : Oracle) (
       · omega
       · rw [hlen]; omega
 
+/-! ## composition with the register generator (C06)
+
+`generate_register_command_stream_for_sg`: every command is converted, the list is handed to `generate_command_stream`.  The
+output type of the builder model is the input type of `Model/Emit.generate`, so `Props.C06.generate_refines` applies to what the
+builder produces: decoding the emitted words gives the events of the un-elided register program of *the converted commands*. -/
+
+/-- `[convert_command_to_npu_op(cmd, arch) for cmd in …]` (each command with the integers C06 takes from other mechanisms) -/
+def convertAll (fo : FloatOps) (archD : ArchD) : List (Cmd × Oracle) → Except Err (List Op)
+  | [] => .ok []
+  | (c, o) :: rest =>
+    match convert fo c archD o, convertAll fo archD rest with
+    | .ok r, .ok ops => .ok (r.op :: ops)
+    | .error e, _ => .error e
+    | _, .error e => .error e
+
+theorem commands_to_stream_refines (fo : FloatOps) (archD : ArchD) (arch : Arch) (cmds : List (Cmd × Oracle)) (ops : List Op)
+    (ws : List Nat) (hc : convertAll fo archD cmds = .ok ops) (hg : Emit.generate arch ops = .ok ws) :
+    ops.length = cmds.length ∧
+    ∃ items, Emit.program arch ops = .ok items ∧
+      (Decode.splitCmds ws >>= Decode.events) = Decode.events (items.map EmitLemmas.itemCmd) ∧
+      Decode.splitCmds (Emit.fullWords items) = .ok (items.map EmitLemmas.itemCmd) := by
+  refine ⟨?_, Props.C06.generate_refines arch ops ws hg⟩
+  clear hg
+  induction cmds generalizing ops with
+  | nil => simp only [convertAll] at hc; injection hc with hc; subst hc; rfl
+  | cons x xs ih =>
+    obtain ⟨c, o⟩ := x
+    simp only [convertAll] at hc
+    split at hc
+    · rename_i r ops' _ hrest
+      injection hc with hc; subst hc
+      simp [ih ops' hrest]
+    · cases hc
+    · cases hc
+
 /-! ## non-vacuity: the hypotheses are met by real commands of compiled networks
 
 `Lemmas/NpuOpBuildExample.lean` is generated (`tools/hl2npu_example.py`) from request lines captured while compiling generated
@@ -601,6 +642,15 @@ example : (createElementwise floatOps Example.swap swapArch).toOption.map
 example : (createElementwise floatOps Example.swap swapArch).toOption.map
       (fun b => ((b.ifm2.bind (·.scale)).map (·.bits), b.ifm.fm.addresses, b.ifm2.map (·.fm.addresses))) =
       some (some 4602484194877112320, [0, 0, 0, 0], some [48, 0, 0, 0]) := by decide +kernel
+
+/-- Latent hazard (unreachable today: operators whose first operand is broadcast are never cascaded, and an un-cascaded
+    operator has one stripe): the swap branch also exchanges `ps.ifm_shapes`, which a *second* stripe of the same pass would read
+    already exchanged while its own tensors and boxes are not — the order test then passes, nothing is swapped, and the small
+    tensor is addressed as IFM with the large operator shape. -/
+theorem second_stripe_would_not_swap_witness :
+    (ewOrder Example.swap).toOption.map (·.2) = some true ∧
+    (ewOrder { Example.swap with ifmShape0 := ⟨1, 1, 16, 4⟩, ifmShape1 := some ⟨1, 1, 1, 4⟩ }).toOption.map
+      (fun p => (p.2, p.1.ifm.t.shape, p.1.ifmShape0)) = some (false, [4], ⟨1, 1, 16, 4⟩) := by decide +kernel
 
 /-- (b) `MUL(constant, x)`: reversed by the scheduler, no swap by the builder -/
 example : sched.reversedOperands = true ∧
